@@ -90,6 +90,8 @@ def parser_block(rep, tier, seed):
 def run(rep, tier, seed, replay):
     extra = [(15, ("none", 0), [PE.I(b"amp:1|ms|@0.00001"), PE.I(b"ok1:1|c"), "G"], "amplification"),
              (15, ("none", 0), [PE.I(b"a]b[c:1|c"), PE.I(b"foo:1|ms|#quantile:x"), PE.I(b"#a=b:1|c"), PE.I(b"ok1:1|c"), "G"], None)]
+    import props.c03 as c03
+    extra = extra + [(fl, c, ops, None) for fl, c, ops, _ in c03.help_after_expiry()]
     PC.run(rep, "C02", tier, seed, replay, gen_case, monitor, 500, 30000,
            "%(n)d streams of 3-25 lines with 1-4 hostile lines (grammar-aware mutations, raw bytes, invalid UTF-8, reserved tag keys, extreme "
            "numerics and rates) in first/middle/last position under random accepted configs (reserved rule labels allowed) and all 16 flag sets, "
